@@ -332,7 +332,8 @@ def _replay_alloc(args: dict) -> str | None:
     """
     n, total = args["n"], args["total"]
     if n >= _CAP and "size" in args:
-        return _replay_at_live_limit(args["size"])
+        ents4 = [(args["o%d" % i], args["l%d" % i]) for i in range(n)]
+        return _replay_at_live_limit(args["size"], ents4, total)
     ents = [(args["o%d" % i], args["l%d" % i]) for i in range(n)]
     buf = bytearray(_HS)
     shm.ShmAllocator.initialize(memoryview(buf), total)
@@ -418,15 +419,27 @@ class _Off:
         raise HarnessModelError(f"offset used through {name}: comparison not forwarded by the wrapper")
 
 
-def _replay_at_live_limit(size: int) -> str | None:
-    """The patched limit (4) is not the live one: replay the 'table full' case scaled to the live MAX_ALLOCS."""
-    size = max(1, min(int(size), 1 << 16))
+def _replay_at_live_limit(size: int, ents4: list[tuple[int, int]] | None = None, total4: int = 0) -> str | None:
+    """The patched limit (4) is not the live one: replay the 'table full' case scaled to the live MAX_ALLOCS.
+
+    The *shape* of the counterexample is kept: the live table is (MAX_ALLOCS - 4) contiguous one-byte
+    entries at the start of the data region followed by the counterexample's own entries shifted
+    behind them, so every gap of the counterexample (before, between and after its entries) exists
+    with the same width.  Only the header is touched by the allocator, so the byte buffer is the
+    header plus a canary strip whatever the (possibly astronomically large) offsets are.
+    """
     cap = shm.MAX_ALLOCS
-    total = _HS + cap + size + 16
-    buf = bytearray(total)
+    size = int(size)
+    if ents4 is None or len(ents4) > cap:
+        ents4, total4 = [], _HS
+    pad = cap - len(ents4)
+    ents = [(_HS + i, 1) for i in range(pad)] + [(int(o) + pad, int(ln)) for o, ln in ents4]
+    total = int(total4) + pad if ents4 else _HS + pad + max(1, min(size, 1 << 16)) + 16
+    if total >= _U64 or size <= 0:
+        return None
+    buf = bytearray(_HS + 4096)
     shm.ShmAllocator.initialize(memoryview(buf), total)
     a = shm.ShmAllocator(memoryview(buf), total)
-    ents = [(_HS + i, 1) for i in range(cap)]
     a._write_allocs(list(ents))
     data_before = bytes(buf[_HS:])
     try:
@@ -434,8 +447,9 @@ def _replay_at_live_limit(size: int) -> str | None:
     except Exception as e:  # noqa: BLE001
         return f"allocate({size}) on a full table ({cap} entries) raised {type(e).__name__}: {e}"
     if r is not None or a.num_allocs != cap or bytes(buf[_HS:]) != data_before:
+        gaps = "a gap inside the table" if _fits(ents, ents[-1][0] + ents[-1][1], size) else "the gap after the last entry"
         return (
-            f"allocate({size}) on a full table ({cap} entries) returned {r}; count is now {a.num_allocs}; "
+            f"allocate({size}) on a full table ({cap} entries, request fits {gaps}) returned {r}; count is now {a.num_allocs}; "
             f"data region {'was overwritten by the table' if bytes(buf[_HS:]) != data_before else 'untouched'}"
         )
     return None
